@@ -27,7 +27,7 @@ ENV = ShopifyEnvironment(loader=DictLoader(dict(PARTS)))
 CORPUS = [
     "{{ nil }}|{{ null }}|{{ empty }}|{{ blank }}|{{ true }}|{{ false }}|{{ 1 }}|{{ -2 }}|{{ 1.5 }}|{{ 'a\\'b' }}|{{ \"q\\\"r\" }}",
     "{{ 'abc' | slice: 1, 2 }}|{{ x | default: 'd', allow_false: true }}|{{ s | replace: 'a', 'b' | upcase }}|{{ a | join: ', ' }}",
-    "{{ ['a b'] }}|{{ o['a b'] }}|{{ o.k }}|{{ o[\"k\"] }}|{{ a[0] }}|{{ a[x] }}|{{ o[k].z }}|{{ a.first }}|{{ o['it\\'s'] }}",
+    "{{ ['a b'] }}|{{ o['a b'] }}|{{ o.k.z }}|{{ o[\"k\"].z }}|{{ a[0] }}|{{ a[x] }}|{{ o[k].z }}|{{ a.first }}|{{ o['it\\'s'] }}",
     "{{ a | map: i => i }}|{{ a | where: i => i == x | size }}|{{ a | find: (i, j) => j == x }}|{{ h | map: 'k' | join: ',' }}|{{ h | sort: 'k' | size }}",
     "{{ 'y' if x else 'n' }}|{{ x | plus: 1 if x > 1 else 0 | minus: 1 || append: '!' | upcase }}|{{ 'q' if not (x == 1 or b) and s }}",
     "{{ \"a${x}b\" }}|{{ 'n=${ x | plus: 1 }!' }}|{{ '\\${x}' }}|{{ (1..3) | join: '' }}|{{ (x..3) | size }}|{{ 1, x, 'z' | join: '-' }}",
